@@ -165,7 +165,9 @@ func (w *ICSWorld) viewBalBig(contract, who common.Address) *big.Int {
 }
 
 // viewBal: a token balance in model units
-func (w *ICSWorld) viewBal(contract, who common.Address) int64 { return icsUnits(w.viewBalBig(contract, who)) }
+func (w *ICSWorld) viewBal(contract, who common.Address) int64 {
+	return icsUnits(w.viewBalBig(contract, who))
+}
 
 func (w *ICSWorld) project(denoms map[string]string) M {
 	w.fixHeaders()
